@@ -16,15 +16,14 @@ func checkC04(c *an.Ctx) {
 	c.Rule("C04.3", "in the stage goroutine no synchronisation operation (lock, channel operation, wait) is executed before or around the runner call")
 	c.Rule("C04.4", "one pass visits every node: the launch sits in a range over Nodes() of the scheduled graph and the per-stage loop has no exit other than exhaustion")
 	c.NotDecided = append(c.NotDecided, "actual overlap in time (OS scheduling)", "the 50 ms pass period")
-	s := resolveSched(c, "C04.0")
-	if !s.ok {
+	p := c.P
+	schedule := p.Func("pkg/scheduler", "Scheduler", "Schedule")
+	if schedule == nil {
+		c.Und("C04.0", "scheduler.(*Scheduler).Schedule", 0, "Schedule not found")
 		return
 	}
-	c.OK("C04.0", "scheduler roles", s.schedule.Pos(), "launch=%s body=%s", c.P.Pos(s.launch.Pos()), an.Short(s.body))
-	p := c.P
-
-	// C04.1
-	syncReach := p.Reach([]*ssa.Function{s.schedule}, func(e an.CallEdge) bool { return e.Kind != an.EdgeGo && an.InModule(e.Callee) })
+	// C04.1 needs no role discovery
+	syncReach := p.Reach([]*ssa.Function{schedule}, func(e an.CallEdge) bool { return e.Kind != an.EdgeGo && an.InModule(e.Callee) })
 	bad := false
 	var fns []*ssa.Function
 	for f := range syncReach {
@@ -41,8 +40,13 @@ func checkC04(c *an.Ctx) {
 		}
 	}
 	if !bad {
-		c.OK("C04.1", an.Short(s.schedule)+":sync-closure", s.schedule.Pos(), "none of the %d functions reachable from Schedule without a go statement calls Runner.Run", len(fns))
+		c.OK("C04.1", an.Short(schedule)+":sync-closure", schedule.Pos(), "none of the %d functions reachable from Schedule without a go statement calls Runner.Run", len(fns))
 	}
+	s := resolveSched(c, "C04.0")
+	if !s.ok {
+		return
+	}
+	c.OK("C04.0", "scheduler roles", s.schedule.Pos(), "launch=%s body=%s", c.P.Pos(s.launch.Pos()), an.Short(s.body))
 	inLoop := s.inner.Blocks[s.launch.Block()]
 	c.Check(inLoop, "C04.1", an.Short(s.launchFn)+":launch-in-loop", s.launch.Pos(), "the go statement is inside the per-stage loop", "the go statement is outside the per-stage loop")
 
